@@ -8,6 +8,8 @@ import collections, json, os, sys
 
 VERIF = os.path.dirname(os.path.dirname(os.path.abspath(__file__)))
 R = [json.loads(l) for l in open(os.path.join(VERIF, "mutation", "results.jsonl"))]
+if os.path.exists(os.path.join(VERIF, "mutation", "results3.jsonl")):  # campaign 3 (operators delctl, argswap, dropkw, dropwrap)
+    R += [json.loads(l) for l in open(os.path.join(VERIF, "mutation", "results3.jsonl"))]
 TRI = json.load(open(os.path.join(VERIF, "mutation", "triage.json"))) if os.path.exists(os.path.join(VERIF, "mutation", "triage.json")) else {}
 PATTERNS = [
     (("do_highlight", ".do_show", "result.", "Svg", "svg", "control_unit_values", "ControlUnitSignals("), "out of scope", "visualisation directive / control-signal display value: no property claims what the data-path picture highlights (C16/C20 only demand that twins agree)"),
